@@ -613,6 +613,16 @@ func (c *Ctx) panicSites(fd *ast.FuncDecl) []panicSite {
 					if rangeKeys[c.objOf(id)] == exprString(x.X) {
 						return true // index is the range key of the same container
 					}
+					// sort.Interface contract: Less/Swap receive indices in [0, Len())
+					if (fd.Name.Name == "Less" || fd.Name.Name == "Swap") && fd.Recv != nil {
+						if rid, ok := unparen(x.X).(*ast.Ident); ok && c.objOf(rid) == c.recvObj(fd) {
+							for pi := 0; pi < 2; pi++ {
+								if c.paramObj(fd, pi) == c.objOf(id) {
+									return true
+								}
+							}
+						}
+					}
 				}
 				if !c.indexGuarded(fd, x) {
 					out = append(out, panicSite{fn, "index", exprString(x), x.Pos()})
@@ -659,14 +669,21 @@ func (c *Ctx) indexGuarded(fd *ast.FuncDecl, ix *ast.IndexExpr) bool {
 	if arr, ok := c.typeOf(ix.X).Underlying().(*types.Array); ok && int64(k) < arr.Len() {
 		return true
 	}
-	base := exprString(ix.X)
+	stripConv := func(e ast.Expr) string {
+		e = unparen(e)
+		if call, ok := e.(*ast.CallExpr); ok && c.isConversion(call) && len(call.Args) == 1 {
+			e = unparen(call.Args[0])
+		}
+		return exprString(e)
+	}
+	base := stripConv(ix.X)
 	for _, cl := range c.literalsAt(fd, ix) {
 		be, ok := unparen(cl.e).(*ast.BinaryExpr)
 		if !ok || cl.neg {
 			continue
 		}
 		call, ok := unparen(be.X).(*ast.CallExpr)
-		if !ok || !c.isBuiltin(call, "len") || len(call.Args) != 1 || exprString(call.Args[0]) != base {
+		if !ok || !c.isBuiltin(call, "len") || len(call.Args) != 1 || stripConv(call.Args[0]) != base {
 			continue
 		}
 		rv, ok := c.Info.Types[be.Y]
@@ -677,7 +694,7 @@ func (c *Ctx) indexGuarded(fd *ast.FuncDecl, ix *ast.IndexExpr) bool {
 		if !isInt {
 			continue
 		}
-		if be.Op == token.GTR && m >= k || be.Op == token.GEQ && m > k {
+		if be.Op == token.GTR && m >= k || be.Op == token.GEQ && m > k || be.Op == token.EQL && m > k {
 			return true
 		}
 	}
